@@ -96,7 +96,20 @@ func vschedReplay(t *testing.T, prop string, c *vsCase) string {
 
 // exploreScenarios runs every scenario up to the preemption bound and merges
 // the measurements into the report. It returns the text for the rule.
+// vsTotals is what exploreScenarios measured, for legs that need extra keys.
+type vsTotals struct {
+	Schedules, Steps, DistinctTraces int64
+	Completed                        int
+}
+
 func exploreScenarios(t *testing.T, r *vr.Report, prop string, scs []vsScenario, bound int, deadline time.Time, mkCase func(*vsCase) interface{}) string {
+	s, _ := exploreScenarios2(t, r, prop, scs, bound, deadline, mkCase)
+	return s
+}
+
+func exploreScenarios2(t *testing.T, r *vr.Report, prop string, scs []vsScenario, bound int, deadline time.Time, mkCase func(*vsCase) interface{}) (string, vsTotals) {
+	var steps int64
+	traces := map[uint64]struct{}{}
 	var total, divergent, replayErrs int64
 	byCost := map[int]int64{}
 	ends := map[string]int64{}
@@ -124,10 +137,12 @@ levels:
 				Options: sc.opts, MaxCost: b, SkipBelow: b, Workers: workers, Deadline: deadline, New: sc.mk,
 				Visit: func(choices []uint8, res *vsched.Result, j vsched.Judgement) {
 					r.Case(fmt.Sprintf("vsched:%s:%x", sc.name, res.TraceHash), j.Nontrivial)
+					steps += int64(res.Steps)
+					traces[res.TraceHash] = struct{}{}
 					r.Outcome("vsched " + j.Outcome)
 					if j.Nontrivial && res.Cost == bound && samples < 1 {
 						samples++
-						r.Sample(map[string]interface{}{"stage": "vsched", "scenario": sc.name, "choices": toInt(choices), "preemptions": res.Cost, "end": res.End, "obs": j.Obs})
+						r.Sample(map[string]interface{}{"stage": "vsched", "scenario": sc.name, "choices": compactChoices(choices), "preemptions": res.Cost, "end": res.End, "obs": j.Obs})
 					}
 					if j.Violation != "" {
 						vc := &vsCase{Scenario: sc.name, Choices: toInt(choices)}
@@ -135,7 +150,15 @@ levels:
 						vc.Trace = full.Trace
 						// One violation per (scenario, broken clause): the first one
 						// found has the fewest preemptions (iterative bounding).
-						r.Violate("vsched:"+sc.name+":"+j.Violation, fmt.Sprintf("%s [scenario %s, %d preemption(s), schedule %v]", j.Violation, sc.name, res.Cost, toInt(choices)), mkCase(vc), func() bool {
+						key := "vsched:" + sc.name + ":" + j.Violation
+						if j.Key != "" {
+							key = j.Key
+						}
+						unit := "preemption(s)"
+						if sc.opts.DelayBounding {
+							unit = "delay(s)"
+						}
+						r.Violate(key, fmt.Sprintf("%s [scenario %s, %d %s, schedule %s]", j.Violation, sc.name, res.Cost, unit, compactChoices(choices)), mkCase(vc), func() bool {
 							_, j2 := vsched.Replay(sc.opts, choices, sc.mk())
 							return j2.Violation != ""
 						})
@@ -184,7 +207,10 @@ levels:
 	if capped {
 		notExhaustive(r, fmt.Sprintf("E-vsched stopped by its time budget: every schedule with <= %d preemption(s) was explored in every scenario, bound %d only partly", completed, bound))
 	}
-	return fmt.Sprintf("stage 2 (E-vsched, real source of the package rewritten onto a cooperative scheduler): scenarios %s; every interleaving of visible operations (mutex, cond, channel, select, timer, cancel, spawn, map-iteration order, select-case choice) with <= %d preemption(s)/timer deviation(s), each schedule executed and then strictly replayed. Non-trivial = calls of different threads overlapped; distinct by the executed operation sequence (trace hash).", strings.Join(names, ", "), bound)
+	r.Set("vsched_steps", steps)
+	r.Set("vsched_distinct_traces", int64(len(traces)))
+	tot := vsTotals{Schedules: total, Steps: steps, DistinctTraces: int64(len(traces)), Completed: completed}
+	return fmt.Sprintf("stage 2 (E-vsched, real source of the package rewritten onto a cooperative scheduler): scenarios %s; every interleaving of visible operations (mutex, cond, channel, select, timer, cancel, spawn, map-iteration order, select-case choice) with <= %d preemption(s)/timer deviation(s), each schedule executed and then strictly replayed. Non-trivial = calls of different threads overlapped; distinct by the executed operation sequence (trace hash).", strings.Join(names, ", "), bound), tot
 }
 
 // ---------------------------------------------------------------------------
@@ -977,4 +1003,26 @@ func vschedC32(t *testing.T, r *vr.Report) string {
 	deadline := vr.Deadline(30*time.Second, 400*time.Second)
 	s := exploreScenarios(t, r, "C32", c32Scenarios(), bound, deadline, func(c *vsCase) interface{} { return c32caseFile{Stage: "vsched", VS: c} })
 	return s + " The recording prompter has two scheduling points inside every invocation; the registry is package-level state, so schedules are executed one at a time."
+}
+
+// compactChoices renders a choice vector for samples: digits, with runs of
+// zeros written as "0*n".
+func compactChoices(c []uint8) string {
+	var b strings.Builder
+	for i := 0; i < len(c); {
+		if c[i] == 0 {
+			j := i
+			for j < len(c) && c[j] == 0 {
+				j++
+			}
+			if j-i > 3 {
+				fmt.Fprintf(&b, "0*%d ", j-i)
+				i = j
+				continue
+			}
+		}
+		fmt.Fprintf(&b, "%d ", c[i])
+		i++
+	}
+	return strings.TrimSpace(b.String())
 }
